@@ -14,6 +14,7 @@ import (
 	"sort"
 	"strings"
 	"sync"
+	"syscall"
 	"time"
 
 	"github.com/folbricht/desync"
@@ -394,6 +395,29 @@ func run(c *harness.Ctx, i int) {
 	repair := rng.Intn(2) == 0
 	c.Info("op=verify backend=%s uncompressed=%v n=%d repair=%v objects=%d storm=%v", kind, uncompressed, n, repair, len(objs), storm)
 	c.LogInfo()
+	// verify run by an unprivileged user who cannot read some perfectly valid chunk files: they must survive -r
+	unpriv := kind == "local-cli" && rng.Intn(3) == 0
+	unreadable := map[string]bool{}
+	if unpriv {
+		filepath.Walk(b.dir, func(p string, info os.FileInfo, err error) error {
+			if err == nil {
+				if info.IsDir() {
+					os.Chmod(p, 0777)
+				} else {
+					os.Chmod(p, 0666)
+				}
+			}
+			return nil
+		})
+		os.Chmod(dir, 0755)
+		os.Chmod(cfgFile, 0644)
+		for _, o := range objs {
+			if o.ownFmt && o.valid && len(unreadable) < 2 && rng.Intn(2) == 0 {
+				os.Chmod(filepath.Join(b.dir, o.key), 0)
+				unreadable[o.key] = true
+			}
+		}
+	}
 	var msgs bytes.Buffer
 	var err error
 	if kind == "local" {
@@ -409,7 +433,28 @@ func run(c *harness.Ctx, i int) {
 		cmd := exec.Command(cli, args...)
 		cmd.Env = append(os.Environ(), "HOME="+dir)
 		cmd.Stderr = &msgs
+		if unpriv {
+			cmd.SysProcAttr = &syscall.SysProcAttr{Credential: &syscall.Credential{Uid: 65534, Gid: 65534}}
+		}
 		err = cmd.Run()
+	}
+	if len(unreadable) > 0 {
+		// it may fail (it cannot read everything); it must not have removed what it could not read
+		after := b.list()
+		for k := range unreadable {
+			os.Chmod(filepath.Join(b.dir, k), 0644)
+		}
+		after2 := b.list()
+		for k := range unreadable {
+			if _, still := after2[k]; !still {
+				c.Violation("verify-deleted:unreadable-valid", "verify (repair=%v) run by an unprivileged user removed the valid chunk %q it could not read (exit: %v; %s)", repair, k, err, strings.TrimSpace(msgs.String()))
+				return
+			}
+		}
+		_ = after
+		c.Count("verifies_with_unreadable_chunks", 1)
+		c.NonTrivial("verify-unreadable|u%v|r%v", uncompressed, repair)
+		return
 	}
 	if err != nil {
 		c.Violation("verify-failed", "verify failed: %v %s", err, msgs.String())
